@@ -15,10 +15,14 @@ S  direct oracles on the implementation, no model: lookups return the very objec
    (Z, symbol, name) against the hand-written periodic table, isotope consistency, eq/ne/hash on all pairs, dict and
    set membership with fresh equal copies, Line keys.  Exhaustive over the exported objects.
 """
+import copy
 import itertools
 import json
 import math
 import os
+import pickle
+import subprocess
+import sys
 
 from harness.translators import elements as T
 from harness.vlib import lean
@@ -157,6 +161,9 @@ def run(ctx):
     # ---- 6. equality / hashing ---------------------------------------------------------------------------------------
     s_eq_hash(ctx, fail, E, species)
     s_lines(ctx, fail, E, Line, species)
+    s_near_miss(ctx, fail, E, Line, species)
+    s_copies(ctx, fail, E, Line, species)
+    s_other_interpreter(ctx, fail, E, Line, species)
     if drv is not None:
         k_eq_rows(ctx, drv, species)
         k_constructed(ctx, drv, E, Line, els, isos)
@@ -765,6 +772,223 @@ def k_constructed(ctx, drv, E, Line, els, isos):
             ctx.disagreements += len(bad)
             ctx.broke('correspondence', '== / != / hash on constructed species and lines (eq ne hash-eq bits): model vs implementation', bad[:10])
     drv.add(lines, _done)
+
+
+# -------------------------------------------------------------------------------------------------------------------
+# round 5: near-miss constructed species against the registry; copies and pickles, also across interpreters
+# -------------------------------------------------------------------------------------------------------------------
+def coherence(a, b):
+    """why `a` and `b` do not behave coherently as dictionary keys, or None.  Nothing is assumed about whether they
+    *should* be equal: only that ==, != and hash tell one story (property: "equality and hashing agree")."""
+    eq1, eq2, ne1, ne2 = (a == b), (b == a), (a != b), (b != a)
+    if eq1 is not eq2:
+        return 'a == b is %r but b == a is %r' % (eq1, eq2)
+    if ne1 is eq1 or ne2 is eq2:
+        return '== is %r but != is %r / %r' % (eq1, ne1, ne2)
+    if eq1:
+        if hash(a) != hash(b):
+            return 'a == b but hash(a) != hash(b); b in {a: 1} is %r' % (b in {a: 1})
+        if b not in {a: 1} or a not in {b: 1} or len({a, b}) != 1:
+            return 'a == b, hashes equal, but dict/set membership fails'
+    return None
+
+
+def near_misses(E, s):
+    """[(label, perturbed attribute, twin)]: `s` with exactly one attribute minimally perturbed (+ the exact copy)"""
+    iso = type(s) is E.Isotope
+    w = s.atomic_weight
+
+    def mk(name=s.name, symbol=s.symbol, z=s.atomic_number, weight=w, a=None, element=None):
+        if iso:
+            return E.Isotope(name, symbol, element if element is not None else s.element, s.mass_number if a is None else a, weight)
+        return E.Element(name, symbol, z, weight)
+    out = [('exact-copy', 'none', mk())]
+    for lab, w2 in (('weight+1ulp', math.nextafter(w, math.inf)), ('weight-1ulp', math.nextafter(w, 0.0)),
+                    ('weight+4ulp', w * (1 + 2 ** -51)), ('weight-round9', float(repr(round(w, 9)))), ('weight-10g', float('%.10g' % w)),
+                    ('weight-12g', float('%.12g' % w))):
+        if w2 != w:
+            out.append((lab, 'weight', mk(weight=w2)))
+    for lab, n2 in (('name-upper', s.name.upper()), ('name-title', s.name.title())):
+        if n2 != s.name:
+            out.append((lab, 'name', mk(name=n2)))
+    for lab, y2 in (('symbol-lower', s.symbol.lower()), ('symbol-upper', s.symbol.upper()), ('symbol-swapcase', s.symbol.swapcase())):
+        if y2 != s.symbol:
+            out.append((lab, 'symbol', mk(symbol=y2)))
+    if iso:
+        out.append(('A+1', 'mass-number', mk(a=s.mass_number + 1)))
+        out.append(('A-1', 'mass-number', mk(a=s.mass_number - 1)))
+        p = s.element
+        out.append(('element-weight+1ulp', 'element', mk(element=E.Element(p.name, p.symbol, p.atomic_number, math.nextafter(p.atomic_weight, math.inf)))))
+        out.append(('element-copy', 'none', mk(element=E.Element(p.name, p.symbol, p.atomic_number, p.atomic_weight))))
+    else:
+        out.append(('Z+1', 'atomic-number', mk(z=s.atomic_number + 1)))
+        out.append(('Z-1', 'atomic-number', mk(z=s.atomic_number - 1)))
+    return out
+
+
+def s_near_miss(ctx, fail, E, Line, species):
+    """every exported species against constructed near misses of itself, and the Lines built on both"""
+    head_mixed = []
+    for s in species:
+        kind = type(s).__name__
+        for lab, attr, twin in near_misses(E, s):
+            ctx.count('S:near-miss:' + lab)
+            ctx.case(key=('near-miss', s.name, lab))
+            why = coherence(s, twin)
+            if why is None and lab in ('exact-copy', 'element-copy') and not (s == twin):
+                why = 'a constructed object with identical attributes compares unequal (equality is not value based)'
+            if why:
+                fail('C19:near-miss:%s:%s:%s' % (kind, attr, s.name),
+                     '%s %r vs the same species with %s (%r / weight %r): %s' % (kind, s.name, lab, twin, twin.atomic_weight, why),
+                     dict(species=s.name, kind=kind, perturbation=lab, twin_weight=twin.atomic_weight, registry_weight=s.atomic_weight))
+            st1, la = call(Line, s, 0, (2, 1))
+            st2, lb = call(Line, twin, 0, (2, 1))
+            if st1 == 'ok' and st2 == 'ok':
+                why = coherence(la, lb)
+                if why:
+                    fail('C19:near-miss:Line:%s:%s' % (attr, s.name),
+                         'Line on %s %r vs Line on the same species with %s: %s' % (kind, s.name, lab, why),
+                         dict(species=s.name, kind=kind, perturbation=lab, twin_weight=twin.atomic_weight, line=[0, [2, 1]]))
+        # the exact type changed, attributes kept (an Isotope carrying an Element's name/symbol/weight and vice versa)
+        if type(s) is E.Element:
+            other = E.Isotope(s.name, s.symbol, s, max(s.atomic_number, 1), s.atomic_weight)
+        else:
+            other = E.Element(s.name, s.symbol, s.atomic_number, s.atomic_weight)
+        ctx.count('S:near-miss:other-kind')
+        why = coherence(s, other)
+        if why:
+            head_mixed.append((s.name, kind, why))
+    if head_mixed:
+        # present on /repo HEAD (notes/C19.md "Observations" 1, theorem mixed_eq_hash_witness, notes/fixes/C19-optional-1.diff):
+        # reported as a failing input only once the main author lists the signature; never silently dropped.
+        sig = 'C19:near-miss:other-kind:eq-but-hash-differs'
+        desc = ('%d exported species compare equal to a constructed object of the other exact type carrying the same name, symbol, Z and '
+                'weight, yet hash differently (e.g. %s %r: %s)' % (len(head_mixed), head_mixed[0][1], head_mixed[0][0], head_mixed[0][2]))
+        ctx.count('HEAD-observation:other-kind-eq-but-hash-differs', len(head_mixed))
+        ctx.extra['head_observations'] = [dict(signature=sig, description=desc, patch='notes/fixes/C19-optional-1.diff')]
+        if sig in ctx.known:
+            ctx.fail(sig, desc, dict(species=head_mixed[0][0], kind=head_mixed[0][1]))
+
+
+def s_copies(ctx, fail, E, Line, species):
+    """copy / deepcopy / pickle round trip inside this interpreter"""
+    ways = (('copy', copy.copy), ('deepcopy', copy.deepcopy), ('pickle', lambda o: pickle.loads(pickle.dumps(o))),
+            ('pickle-protocol-2', lambda o: pickle.loads(pickle.dumps(o, protocol=2))))
+    for s in species:
+        objs = [(type(s).__name__, s)]
+        st, l = call(Line, s, 0, (3, 2))
+        if st == 'ok':
+            objs.append(('Line', l))
+        for kind, o in objs:
+            for lab, f in ways:
+                ctx.count('S:copies:' + lab)
+                ctx.case(key=('copy', lab, kind, s.name))
+                st, c = call(f, o)
+                if st != 'ok':
+                    fail('C19:copy:%s:%s:%s' % (lab, kind, s.name), '%s of %r raised %s: %s' % (lab, o, st, c), dict(species=s.name, kind=kind, how=lab))
+                    continue
+                why = coherence(o, c) or (None if o == c else 'the %s compares unequal to the original' % lab)
+                if why:
+                    fail('C19:copy:%s:%s:%s' % (lab, kind, s.name), '%s of %r: %s' % (lab, o, why), dict(species=s.name, kind=kind, how=lab))
+
+
+_CHILD = r"""
+import json, pickle, sys
+import cherab.core.atomic.elements as E
+from cherab.core.atomic import Line
+
+def registry():
+    out = {}
+    for var in dir(E):
+        o = getattr(E, var)
+        if type(o) in (E.Element, E.Isotope):
+            out[var] = o
+    return out
+
+def payload():
+    reg = registry()
+    d = {}
+    for var, o in reg.items():
+        d['species:' + var] = o
+        try:
+            d['line:' + var] = Line(o, 0, (3, 2))
+        except Exception:
+            pass
+    return d
+
+def coherence(a, b):
+    eq1, eq2, ne1, ne2 = (a == b), (b == a), (a != b), (b != a)
+    if not (eq1 and eq2):
+        return 'the unpickled object is not == to the object of this interpreter (%r / %r)' % (eq1, eq2)
+    if ne1 or ne2:
+        return '== is True but != is %r / %r' % (ne1, ne2)
+    if hash(a) != hash(b):
+        return '== but the hashes differ; found as dict key: %r' % (b in {a: 1})
+    if b not in {a: 1} or a not in {b: 1} or len({a, b}) != 1:
+        return '== and equal hashes but dict/set membership fails'
+    return None
+
+def check(loaded):
+    mine = payload()
+    problems = []
+    for k in sorted(set(mine) | set(loaded)):
+        if k not in mine or k not in loaded:
+            problems.append([k, 'present in one interpreter only'])
+            continue
+        why = coherence(mine[k], loaded[k])
+        if why:
+            problems.append([k, type(loaded[k]).__name__ + ': ' + why])
+    return problems
+
+if sys.argv[1] == 'dump':
+    sys.stdout.buffer.write(pickle.dumps(payload()))
+else:
+    print('RESULT ' + json.dumps(check(pickle.loads(sys.stdin.buffer.read()))))
+"""
+
+
+def s_other_interpreter(ctx, fail, E, Line, species):
+    """species and Lines pickled by an interpreter with another string-hash seed, checked against this interpreter's
+    registry; and the reverse direction (pickled here, checked there)"""
+    env_a = dict(os.environ, PYTHONHASHSEED='4242')
+    env_b = dict(os.environ, PYTHONHASHSEED='777')
+    ns = {}
+    exec(compile(_CHILD.replace("if sys.argv[1] == 'dump':", "if False:").replace("else:\n    print('RESULT '", "if False:\n    print('RESULT '"), '<c19-child>', 'exec'), ns)
+
+    def report(direction, problems):
+        ctx.count('S:other-interpreter:%s:objects' % direction, len(ns['payload']()))
+        for key, why in problems:
+            what, var = key.split(':', 1)
+            fail('C19:pickle:other-interpreter:%s:%s' % (what, var),
+                 '%s %r pickled in one interpreter and loaded in another (different PYTHONHASHSEED), %s: %s' % (what, var, direction, why),
+                 dict(object=key, direction=direction, hashseeds=['0 (this run)', '4242', '777']))
+    try:
+        a = subprocess.run([sys.executable, '-c', _CHILD, 'dump'], env=env_a, stdout=subprocess.PIPE, stderr=subprocess.PIPE, timeout=300)
+        if a.returncode != 0:
+            ctx.broke('correspondence', 'pickling the registry in a second interpreter failed', a.stderr.decode()[-800:])
+        else:
+            st, loaded = call(pickle.loads, a.stdout)
+            if st != 'ok':
+                fail('C19:pickle:other-interpreter:load', 'a pickle of the registry written by another interpreter cannot be loaded: %s %s' % (st, loaded),
+                     dict(direction='there->here'))
+            else:
+                for k in loaded:
+                    ctx.case(key=('other-interpreter', 'there->here', k))
+                report('written there, loaded here', ns['check'](loaded))
+        st, data = call(lambda: pickle.dumps(ns['payload']()))
+        if st != 'ok':
+            fail('C19:pickle:dump', 'the registry cannot be pickled: %s %s' % (st, data), {})
+            return
+        b = subprocess.run([sys.executable, '-c', _CHILD, 'check'], env=env_b, input=data, stdout=subprocess.PIPE, stderr=subprocess.PIPE, timeout=300)
+        res = [l for l in b.stdout.decode().splitlines() if l.startswith('RESULT ')]
+        if b.returncode != 0 or not res:
+            ctx.broke('correspondence', 'checking the pickled registry in a second interpreter failed', b.stderr.decode()[-800:])
+        else:
+            for k in ns['payload']():
+                ctx.case(key=('other-interpreter', 'here->there', k))
+            report('written here, loaded there', json.loads(res[0][7:]))
+    except subprocess.TimeoutExpired:
+        ctx.broke('correspondence', 'second interpreter timed out', '')
 
 
 # -------------------------------------------------------------------------------------------------------------------
